@@ -61,6 +61,8 @@ class RefS(Sort):
     """An opaque object sort (message, flag, name, ...).  Attributes of such objects live in
     per-attribute heap arrays held by the engine state."""
 
+    truth_fn = None         # value-like opaque sorts (str, bytes, frozenset ...): term -> z3 Bool; None: always truthy
+
     def __init__(self, name, **attrs):
         self.name = name
         self.attrs = attrs      # attr name -> Sort
@@ -74,6 +76,8 @@ class RefS(Sort):
     def __repr__(self): return f'Ref({self.name})'
 
 
+_ref_truth: dict = {}       # sort name -> truth function (registered once per value-like sort)
+TRUTH_AUDIT: set = set()    # opaque sorts whose instances were truth-tested as always-true objects
 _opt_sorts: dict[str, tuple] = {}
 
 
@@ -325,7 +329,17 @@ class VRef(Value):
         self.t = t
         self.sort = sort
     def term(self): return self.t
-    def truth(self): return VBool(True)
+    def truth(self):
+        fn = _ref_truth.get(self.sort.name) or self.sort.truth_fn
+        if fn is not None:
+            return VBool(fn(self.t))
+        if self.sort.name not in TRUTH_AUDIT:
+            TRUTH_AUDIT.add(self.sort.name)
+            import os
+            if os.environ.get('PYVC_TRUTH_AUDIT'):
+                with open(os.environ['PYVC_TRUTH_AUDIT'], 'a') as f:
+                    f.write(self.sort.name + '\n')
+        return VBool(True)
     def __repr__(self): return f'VRef({self.t})'
     __hash__ = object.__hash__
     __eq__ = Value.__eq__
